@@ -16,6 +16,7 @@ EXPLANATION = ("Every count and group multiplier of a formula skeleton is a solv
                "proxies, so the real regular-expression preprocessing, tokeniser, par/mul/add steps and Composite bookkeeping run unchanged. z3 proves that each species' "
                "proportion equals the polynomial obtained by expanding the skeleton, and that the sum row equals the count-weighted per-species data taken straight from the isotope table.")
 ASSUMPTIONS = matkit.MAT_STUB_TEXT + [
+    "division assumes a non-zero divisor on that path (fractions of a composite whose counts are all zero divide by zero on every tree)",
     "counts are real variables >= 1 (integrality is not needed for the algebra); counterexamples are re-solved over small integers before replay",
     "mass/Z/N/e sums are claimed up to 1e-9 relative (np.average and unit round trips add binary64 noise), posed as two abs-free polynomial queries to nlsat",
 ]
